@@ -28,7 +28,6 @@ KNOWN_BS = "kepler:history_stale_bs_nbody_ode"
 KNOWN_GJ = "kepler:history_stale_gravity_jacobi"
 KNOWN_KU = "kepler:keep_unsynchronized_shortened_last_step"
 KNOWN_N0 = "kepler:empty_simulation_step_crash"
-KNOWN_TRACE_INF = "kepler:trace_huge_dt_null_ode_free"
 KNOWN_HANG = "kepler:hyperbolic_newton_overflow_nontermination"
 
 
@@ -787,7 +786,7 @@ def run(ctx):
     # ---------------- 3d. degenerate simulations: N = 0, 1; dt = 0, subnormal, non-finite; zero masses; coincident bodies.
     # Every case runs in its own child (a crash or hang is the finding).  Judged: N=0 (time advances, nothing else),
     # N=1 (uniform motion), dt=0 / subnormal (state unchanged to rounding).  Not judged (outside "a body orbiting a central
-    # mass"), only required to return: non-finite dt, zero-mass star, coincident bodies, a lone massless particle.
+    # mass"), only required to return: zero-mass star, coincident bodies, a lone massless particle, +-1e3-period steps.
     from concurrent.futures import ThreadPoolExecutor
     nanv = float("nan"); infv = float("inf")
     star = {"m": (1.0).hex()}
@@ -799,11 +798,15 @@ def run(ctx):
         for name, parts, dt_e, nst in (("N=0", [], 0.1, 3), ("N=1", [lone], 0.1, 3), ("N=1:massless", [{"m": (0.0).hex(), "vx": (0.5).hex()}], 0.1, 1),
                                        ("star_m=0", [{"m": (0.0).hex()}, tpz], 0.1, 1), ("coincident", [star, {"m": (1e-3).hex()}], 0.1, 1),
                                        ("dt=0", [star, pl], 0.0, 2), ("dt=-0", [star, pl], -0.0, 1), ("dt=subnormal", [star, pl], 1e-320, 2),
-                                       ("dt=nan", [star, pl], nanv, 1), ("dt=inf", [star, pl], infv, 1), ("dt=-inf", [star, pl], -infv, 1)):
+                                       ("dt=1e3_periods", [star, pl], 1e3 * 2 * math.pi, 1), ("dt=-1e3_periods", [star, pl], -1e3 * 2 * math.pi, 1)):
+            # (NaN and +-inf are not time steps of the property - "steps shorter or longer than the orbital period" - and are
+            #  not demanded of a full simulation step; the solver corners still compare them with the model bit for bit)
+            if integ in ("mercurius", "trace") and name.startswith("dt=") and "periods" in name:
+                continue                    # "away from encounters": a 1e3-period step switches TRACE/MERCURIUS to their encounter code
             edge.append({"integrator": integ, "coordinates": coord, "parts": parts, "dt": float(dt_e).hex(), "n": nst, "name": name})
     # one child per integrator configuration for the cases that are expected to return; the cases that are crash candidates
     # (empty simulation, infinite dt) each get their own child; a batch that dies is re-run case by case
-    solo = [k for k, c in enumerate(edge) if c["name"] in ("N=0", "dt=inf", "dt=-inf")]
+    solo = [k for k, c in enumerate(edge) if c["name"] == "N=0"]
     groups = {}
     for k, c in enumerate(edge):
         if k not in solo:
@@ -830,9 +833,7 @@ def run(ctx):
         rep = {"how": "tools/c03_driver.py mode edge: add the particles, set the integrator, n steps, synchronize", "case": c}
         if r is None:
             kind = "nontermination" if err == "timeout" else "crash"
-            key = KNOWN_N0 if (c["name"] == "N=0" and kind == "crash") else \
-                (KNOWN_TRACE_INF if (c["integrator"] == "trace" and c["name"] in ("dt=inf", "dt=-inf") and kind == "crash")
-                 else "kepler:edge_%s:%s" % (kind, c["name"]))
+            key = KNOWN_N0 if (c["name"] == "N=0" and kind == "crash") else "kepler:edge_%s:%s" % (kind, c["name"])
             rep["error"] = err
             violations.append((key, rep, "%s step on a degenerate simulation (%s): %s" % (tag, c["name"], kind)))
             edge_hist[c["name"] + ":" + kind] = edge_hist.get(c["name"] + ":" + kind, 0) + 1
